@@ -44,18 +44,20 @@ def _alarm(signum, frame):
 _MOD = None
 _CASES = None
 _TIER = None
-CASE_TIME_LIMIT = 120
+CASE_TIME_LIMIT = float(os.environ.get("VK_CASE_LIMIT", "300"))  # in the pool; a case that exceeds it is re-run alone (RERUN_TIME_LIMIT) before anything is reported
+RERUN_TIME_LIMIT = float(os.environ.get("VK_RERUN_LIMIT", "600"))
 
 
 def _run_range(rng):
-    lo, hi = rng
+    lo, hi = rng[0], rng[1]
+    limit = RERUN_TIME_LIMIT if rng[2:] == ("rerun",) else CASE_TIME_LIMIT
     from . import chooser
 
     agg = new_agg()
     signal.signal(signal.SIGALRM, _alarm)
     for i in range(lo, hi):
         case = _CASES[i]
-        signal.setitimer(signal.ITIMER_REAL, CASE_TIME_LIMIT)
+        signal.setitimer(signal.ITIMER_REAL, limit)
         try:
             out = _MOD.run_case(case, _TIER)
         except chooser.HARNESS_ERRORS as e:
@@ -66,15 +68,19 @@ def _run_range(rng):
             continue
         except CaseTimeout as e:
             chooser.CH.active = False
-            out = {
-                "viols": [
-                    {
-                        "sig": {"kind": "timeout"},
-                        "msg": str(e),
-                        "case": _MOD.case_json(case) if hasattr(_MOD, "case_json") else repr(case),
-                    }
-                ]
-            }
+            if rng[2:] == ("rerun",):
+                out = {
+                    "viols": [
+                        {
+                            "sig": {"kind": "timeout"},
+                            "msg": f"case did not finish within {RERUN_TIME_LIMIT}s when run alone: {e}",
+                            "case": _MOD.case_json(case) if hasattr(_MOD, "case_json") else repr(case),
+                        }
+                    ]
+                }
+            else:
+                agg["timeouts"].append(i)
+                continue
         except Exception as e:  # a bug in the harness itself
             signal.setitimer(signal.ITIMER_REAL, 0)
             chooser.CH.active = False
@@ -96,6 +102,7 @@ def new_agg():
         "harness_errors": [],
         "sets": collections.defaultdict(set),
         "sigcount": collections.Counter(),
+        "timeouts": [],
         "cases": 0,
     }
 
@@ -144,6 +151,7 @@ def merge_agg(a, b):
         if len(a["samples"]) < 6:
             a["samples"].append(s)
     a["harness_errors"].extend(b["harness_errors"])
+    a["timeouts"].extend(b.get("timeouts", []))
     for k, v in b["sets"].items():
         a["sets"][k] |= v
 
@@ -271,6 +279,10 @@ def run_check(prop, tier, jobs, limit=None, only_case=None):
         with ctx.Pool(jobs) as pool:
             for part in pool.imap_unordered(_run_range, ranges):
                 merge_agg(agg, part)
+    # cases that hit the in-pool time limit are re-run alone, without contention, before anything is reported
+    for i in sorted(set(agg["timeouts"])):
+        agg["counters"]["cases_rerun_after_timeout"] += 1
+        merge_agg(agg, _run_range((i, i + 1, "rerun")))
     if agg["cases"] != ncases:
         agg["harness_errors"].append(f"ran {agg['cases']} cases, family has {ncases}")
 
